@@ -30,6 +30,13 @@ func (self *Interpreter) statement(node ast.AnalyzedStatement) *value.Interrupt 
 			returnValue = returnValueTemp
 		}
 		return value.NewReturnInterrupt(*returnValue)
+	case ast.TriggerStatementKind:
+		// The interpreter's executor cannot register triggers: answer with an error instead of a host panic
+		return value.NewRuntimeErr(
+			"Trigger statements are not supported by the tree-walking interpreter",
+			value.HostErrorKind,
+			node.Span(),
+		)
 	case ast.BreakStatementKind:
 		return value.NewBreakInterrupt()
 	case ast.ContinueStatementKind:
